@@ -1,7 +1,7 @@
 (* C12 -- Installed tracepoints converge to the service's latest configuration. *)
 From Deep Require Import Base ConfigSvc ConfigSvcProofs.
-From DeepGen Require Import PService.
-From Deep Require Import PureSupport TieService.
+From DeepGen Require Import PService PPoll.
+From Deep Require Import PureSupport TieService TiePoll.
 
 (* for every sequence of poll answers, register / unregister calls and task executions (any of the two
    running tasks first): once no update task is pending, what the handler acts on is exactly the latest
@@ -58,3 +58,28 @@ Theorem C12_the_code_installs_the_current_state :
   gen_update_listeners polled hash custom installed ts oh ch oc captured = polled ++ custom.
 Proof. reflexivity. Qed.
 Print Assumptions C12_the_code_installs_the_current_state.
+
+(* ---- LongPoll.poll as it is in /repo/src NOW (gen/PPoll.v): one poll is one step of the model - PollNoChange with the answer's
+   time when the answer says "no change", else PollUpdate with the answer's time, hash and tracepoints -, for every state of the
+   service, every clock and every service behaviour (any function from the reported hash to an answer) *)
+Theorem C12_the_code_poll_is_a_model_step :
+  forall s now no_change answer,
+  gen_poll (polled s) (hash s) (last_update s) (pending s) now no_change answer =
+  svc_view (step true s (op_of_answer no_change (answer (hash s)))).
+Proof. exact tie_poll. Qed.
+Print Assumptions C12_the_code_poll_is_a_model_step.
+
+(* the poll reports the hash of the configuration it currently holds (C12_reported_hash says which that is) and its outcome depends
+   on the service only through the answer to THAT hash *)
+Theorem C12_the_code_poll_reports_the_current_hash :
+  forall polled hash last_update pending now no_change a1 a2,
+  a1 hash = a2 hash ->
+  gen_poll polled hash last_update pending now no_change a1 = gen_poll polled hash last_update pending now no_change a2.
+Proof. exact poll_sends_current_hash. Qed.
+Print Assumptions C12_the_code_poll_reports_the_current_hash.
+
+(* non-vacuity: an update answer on the initial service installs nothing yet but leaves one task pending with the new hash held *)
+Example C12_the_code_poll_example :
+  gen_poll (polled svc0) (hash svc0) (last_update svc0) (pending svc0) 5 0 (fun _ => ((1, 7), (3%nat, [4%nat])))%Z =
+  ([4%nat], Some 3%nat, 7%Z, [{| tk_captured := [4%nat] |}]).
+Proof. vm_compute. reflexivity. Qed.
